@@ -419,6 +419,18 @@ func rulesExtract(p *Prog, r *Report, eng *Engine) {
 						okSrc = true // the local string being built
 					}
 				}
+				// accessor(n) returning the string by value
+				if c, isCall := op.(*ssa.Call); isCall && c.Call.StaticCallee() != nil && isNodeMethod(c.Call.StaticCallee(), nodeType(p)) && len(c.Call.Args) == 1 && c.Call.Args[0] == pr.Params[0] && isStringType(c.Type()) {
+					okSrc = true
+					fieldsUsed[c.Call.StaticCallee().Name()] = true
+				}
+				// a direct read of a field of the node's partials (n.lic.license, n.ref.licenseRef …)
+				if ld, isLd := op.(*ssa.UnOp); isLd && ld.Op == token.MUL {
+					if fa, isFA := ld.X.(*ssa.FieldAddr); isFA && strings.HasPrefix(pv, "param:"+pr.Params[0].Name()+".") {
+						okSrc = true
+						fieldsUsed[fieldOf(fa).Field] = true
+					}
+				}
 				if !okSrc {
 					bad = append(bad, fmt.Sprintf("%s: text part %s is not a canonical field of the node", p.pos(bo.Pos()), pv))
 				}
@@ -430,6 +442,15 @@ func rulesExtract(p *Prog, r *Report, eng *Engine) {
 		for _, in := range b.Instrs {
 			c, ok := in.(*ssa.Call)
 			if !ok || c.Call.StaticCallee() == nil || !isNodeMethod(c.Call.StaticCallee(), nodeType(p)) || len(c.Call.Args) != 1 || c.Call.Args[0] != pr.Params[0] {
+				continue
+			}
+			if isStringType(c.Type()) {
+				// value-returning accessor: any use other than a debug reference counts as read
+				for _, ref := range *c.Referrers() {
+					if _, isDbg := ref.(*ssa.DebugRef); !isDbg {
+						fieldsUsed[c.Call.StaticCallee().Name()] = true
+					}
+				}
 				continue
 			}
 			if pt, ok := c.Type().Underlying().(*types.Pointer); !ok || !isStringType(pt.Elem()) {
